@@ -178,6 +178,15 @@ def run_integrate(a, target=None, step_limit=None, events=None, callbacks=None):
             a.integrate(target, callback=cbs, events=events)
     except de.exception_types.FailedIntegration as e:
         cause = e.__cause__
+        depth = 0
+        while isinstance(cause, de.exception_types.FailedIntegration) and cause.__cause__ is not None and depth < 5:
+            cause = cause.__cause__     # the landing re-integration at a terminal event nests one level
+            depth += 1
+        from pbt.core import CaseTimeout
+        if isinstance(cause, CaseTimeout):
+            raise cause
+        if depth:
+            e.__cause__ = cause
         if isinstance(cause, StepCap):
             return cause
         if exc_origin(cause if cause is not None else e)[0] == "harness" and not isinstance(cause, StepCap):
@@ -185,3 +194,60 @@ def run_integrate(a, target=None, step_limit=None, events=None, callbacks=None):
             raise cause
         return e
     return None
+
+
+# --------------------------------------------------------------------------------------------------
+# dense-output consistency of a whole recorded trajectory (C06 oracles 1, 2, 4), reused by C09 / C12
+# --------------------------------------------------------------------------------------------------
+def dense_consistency(a, rhs, fam, attrs, max_steps=80, what=""):
+    from pbt import oracles as O
+    out = []
+    sol = a.sol
+    if sol is None:
+        return out
+    rich = fam == "richardson"
+    t = np.asarray(a.t, dtype=np.float64)
+    y = np.asarray(a.y, dtype=np.float64)
+    N = len(t) - 1
+    sig = "{}:{}".format(fam, what)
+    te = [float(x) for x in (sol.t_eval or [])]
+    if not rich:
+        if len(te) != N or len(sol.y_interpolants) != N:
+            out.append(V("piece_count", "{}{} dense-output pieces for {} recorded steps (piece end times {}, recorded times {})".format(
+                what + ": " if what else "", len(sol.y_interpolants), N, te[-4:], t[-4:].tolist()), sig, **attrs))
+            return out
+        if sorted(te) != sorted(t[1:].tolist()):
+            out.append(V("piece_times", "{}piece end times are not the recorded times".format(what + ": " if what else ""), sig, **attrs))
+            return out
+        if any(b <= a_ for a_, b in zip(te, te[1:])):
+            out.append(V("piece_order", "{}sol.t_eval is not strictly increasing".format(what + ": " if what else ""), sig, **attrs))
+            return out
+    if rich:
+        return out
+    F = {}
+
+    def f_at(k):
+        if k not in F:
+            F[k] = np.asarray(rhs(np.float64(t[k]), y[k].copy()), dtype=np.float64)
+        return F[k]
+    steps = range(N) if N <= max_steps else sorted(set(np.linspace(0, N - 1, max_steps).astype(int).tolist()) | {N - 1, N - 2, max(N - 3, 0)})
+    for k in range(N + 1):
+        got = np.asarray(sol(np.float64(t[k])), dtype=np.float64)
+        if not np.array_equal(got, y[k]):
+            out.append(V("grid_point", "{}sol(t[{}]={!r}) differs from the recorded state by {:.3e} ({} steps)".format(
+                what + ": " if what else "", k, float(t[k]), float(np.max(np.abs(got - y[k]))), N), sig, **attrs))
+            return out
+    for k in steps:
+        ta, tb = t[k], t[k + 1]
+        for tt in (np.nextafter(ta, tb), ta + 0.37 * (tb - ta), ta + 0.5 * (tb - ta), np.nextafter(tb, ta)):
+            if tt == ta or tt == tb:
+                continue
+            got = np.asarray(sol(np.float64(tt)), dtype=np.float64)
+            ref = np.asarray(O.hermite(ta, tb, y[k], y[k + 1], f_at(k), f_at(k + 1), tt), dtype=np.float64)
+            scale = max(float(np.max(np.abs(y[k]))), float(np.max(np.abs(y[k + 1]))), abs(tb - ta) * max(float(np.max(np.abs(f_at(k)))), float(np.max(np.abs(f_at(k + 1))))), 1e-300)
+            d = float(np.max(np.abs(got - ref)))
+            if not d <= 1e-12 * scale:
+                out.append(V("interior_piece", "{}sol({!r}) inside step {} of {} ([{!r}, {!r}]) differs from the cubic Hermite through the recorded end states and the rhs there by {:.3e} (relative {:.3e})".format(
+                    what + ": " if what else "", float(tt), k, N, float(ta), float(tb), d, d / scale), sig, **attrs))
+                return out
+    return out
